@@ -296,7 +296,13 @@ func runC03(c *Ctx) {
 				}
 				return
 			}
-			go s.Conn.Close()
+			if idx%3 == 0 {
+				// the drained session is ended by the link dying in the middle of one more line, with the event loop idle
+				mc.SendBytes([]byte(fmt.Sprintf(":srv V0 %d a line that never ended", len(sent))))
+				mc.SendEOF()
+			} else {
+				go s.Conn.Close()
+			}
 		case "close":
 			// abrupt: close once some line's handler has entered
 			target := r.Intn(nLines)
@@ -309,8 +315,11 @@ func runC03(c *Ctx) {
 			}
 			go s.Conn.Close()
 		case "eof":
+			// the link dies in the middle of a line: what arrived of it is no line and must not be delivered
+			mc.SendBytes([]byte(fmt.Sprintf(":srv V0 %d a line that never ended", len(sent))))
 			mc.SendEOF()
 		case "readerr":
+			mc.SendBytes([]byte(fmt.Sprintf(":srv V0 %d a line that never ended", len(sent))))
 			mc.SendErr(nil)
 		}
 		if !waitCh(discDone) {
@@ -362,6 +371,11 @@ func runC03(c *Ctx) {
 			}
 			switch e.Kind {
 			case "FE":
+				if e.Seq >= len(sent) {
+					viol("fragment-delivered", fmt.Sprintf("a handler received line %d, which was never sent whole: only an unterminated fragment had arrived when the link dropped", e.Seq))
+					bad = true
+					break
+				}
 				if e.Seq >= 0 && e.Seq < len(sent) && e.S != fmt.Sprint(sent[e.Seq].size) {
 					viol("line-not-whole", fmt.Sprintf("line %d was sent with %d bytes, the handler received %s bytes", e.Seq, sent[e.Seq].size, e.S))
 					bad = true
